@@ -54,6 +54,6 @@ MANIFEST = dict(
     category="other",
     text="Order-free postconditions proved (unbounded) for sort_types over an arbitrary enumeration of the set of registered types, and every iteration order of the candidate set explored in the bounded end-to-end run; determinism is a corollary because no proved postcondition mentions an order witness. Premise (mirror symmetry) and level faithfulness have open findings.",
     design_ref="6/C06",
-    note="Bounded: <=3 methods for the candidate-order exploration; native suite permutes registration orders. Trusted: graphlib model, list.sort stability, z3.",
+    note="Bounded: <=3 methods (every iteration order of every set for 2 methods) for the candidate-order exploration; native suite permutes registration orders. Trusted: graphlib model, list.sort stability, z3.",
     technique="contract-based deductive verification (pyvc + z3): postconditions independent of the set-iteration order witness",
 )
